@@ -16,6 +16,7 @@ RULE = ("read: (instant stratum x notation {date, date-time, +ms, +offset, offse
         "(length +-1, month 00/13, day 00/32/month overflow, hour 24, minute 60, a letter at each position); write: aware datetimes/times "
         "(datetime.timezone and a custom tzinfo subclass) over all offsets, us resolution incl. rounding carries; write->read. "
         "A case = (operation, text or value); non-trivial = the library was called and its result compared with the reference")
+RULE += " Added later: corruptions of the offset FIELD (no hours, junk hours, hours / minutes beyond the clock, non-ASCII digits), zone names containing % directives, the written zone name compared with the zone's, aware values handed to convert()."
 ASSUMPTIONS = ["ref_types.py (days-from-civil integer arithmetic) is correct (self-tested)",
                "written values include zones whose offset depends on the date (hand-written PEP 495 tzinfo with fold); the instant a value denotes is value - tzinfo.utcoffset(value), computed by Python's aware arithmetic",
                "offset HOURS outside -12..+14 and minutes outside 00..59 in a text are refused (judged); UNSPECIFIED, not judged: SS=60, +14.01..+14.59 and -12.01..-12.59, offsets with seconds (values), years outside 1900-2200, zone names containing ] [ < &, the '[-:EST]' broker form"]
